@@ -1551,3 +1551,114 @@ def ob_match_place(ctx):
             res.status, res.detail = 'inconclusive', 'vacuous: the ambiguous situation was not reached'
     res.time = time.time() - t0
     return res
+
+
+# ---------------------------------------------------------------------------------------------------------------------
+# C10: E1504 - location indices vs. matrix size
+
+def ob_location_index_rule(ctx, size):
+    """C10 (E1504, and totality behind it): `CoordIndex::new` (real MIR; its hash maps modelled as association lists with
+    symbolic keys) followed by `check_e1504_index_size_mismatch` for a problem whose locations are matrix-index references
+    with symbolic indices (vehicle start, one job place) and a routing matrix of size x size: the rule passes exactly when
+    'max location index + 1 == matrix size' as documented - in particular every index that passes is inside the matrix."""
+    name = f'location_index_rule[matrix={size}x{size}]'
+    res = Result(name)
+    res.bounds = f'vehicle start and one job place given as matrix-index references with symbolic indices in [0,12]; one {size}x{size} matrix'
+    t0 = time.time()
+    new_fn = ctx.prog.find_method('CoordIndex', 'new')
+    rule = ctx.prog.find_free('check_e1504_index_size_mismatch')
+    if len(new_fn) != 1:
+        raise Inconclusive('CoordIndex::new not found')
+
+    class Env(drivers.Env):
+        symbolic_maps = True
+
+        def override(self, engine, st, callee, args, dest_ty):
+            if 'core::fmt::rt::' in callee or 'fmt::Arguments' in callee or callee.startswith('Arguments::'):
+                return Opaque('fmt argument')
+            if 'fmt::format' in callee or 'format_inner' in callee or callee in ('format', 'std::fmt::format', 'alloc::fmt::format'):
+                return Opaque('"formatted text"')
+            if callee.endswith('<impl f64>::sqrt') or callee.endswith('f64::sqrt'):
+                v = deref_all(args[0])
+                c = zs(v.v)
+                if z3.is_int_value(c) and int(round(c.as_long() ** 0.5)) ** 2 == c.as_long():
+                    return FV.const(int(round(c.as_long() ** 0.5)))
+                raise Inconclusive('sqrt of a non-square / symbolic value in the exact-int back end')
+            if callee.endswith('<impl f64>::round') or callee.endswith('f64::round'):
+                return args[0]
+            return super().override(engine, st, callee, args, dest_ty)
+
+    env = Env(ctx.prog, ctx.layout, 16)
+    eng, _ = ctx.engines(env)
+    holder = {}
+
+    def body(st):
+        env.assumptions.clear()
+        a, b = env.sym_i('vehicle_index', 0, 12), env.sym_i('job_index', 0, 12)
+        none = lambda ty: mk_option(False, ty=ty)
+        ref = lambda i: EnumV('format::Location', 1, {1: [i]})
+        place = env.struct('problem::model::JobPlace', location=ref(b), duration=FV.const(0), times=none('Option<Vec<Vec<String>>>'), tag=none('Option<String>'))
+        task = env.struct('problem::model::JobTask', places=VecV([place]), demand=none('Option<Vec<i32>>'), order=none('Option<i32>'))
+        job = env.struct('problem::model::Job', id=Opaque('"job1"'), pickups=none('Option<Vec<JobTask>>'), deliveries=none('Option<Vec<JobTask>>'),
+                         replacements=none('Option<Vec<JobTask>>'), services=mk_option(True, VecV([task]), ty='Option<Vec<JobTask>>'), skills=none('Option<JobSkills>'),
+                         value=none('Option<f64>'), group=none('Option<String>'), compatibility=none('Option<String>'))
+        start = env.struct('problem::model::ShiftStart', earliest=Opaque('"t"'), latest=none('Option<String>'), location=ref(a))
+        shift = env.struct('problem::model::VehicleShift', start=start, end=none('Option<ShiftEnd>'), breaks=none('Option<Vec<VehicleBreak>>'),
+                           reloads=none('Option<Vec<VehicleReload>>'), recharges=none('Option<VehicleRecharges>'))
+        vo = ctx.layout.fields('problem::model::VehicleType')
+        vehicle = Agg('struct', [Opaque(f) for f in vo], 'problem::model::VehicleType')
+        vehicle.fields[vo.index('shifts')] = VecV([shift])
+        fleet = env.struct('problem::model::Fleet', vehicles=VecV([vehicle]), profiles=VecV([]), resources=none('Option<Vec<VehicleResource>>'))
+        plan_ = env.struct('problem::model::Plan', jobs=VecV([job]), relations=none('Option<Vec<Relation>>'), clustering=none('Option<Clustering>'))
+        problem = env.struct('problem::model::Problem', plan=plan_, fleet=fleet, objectives=none('Option<Vec<Objective>>'))
+        index = eng.exec_fn(st, new_fn[0], [RefV(Cell(problem), 0)])
+        n = size * size
+        matrix = env.struct('problem::model::Matrix', profile=none('Option<String>'), timestamp=none('Option<String>'), travel_times=VecV([IV(0, 'i64')] * n),
+                            distances=VecV([IV(0, 'i64')] * n), error_codes=none('Option<Vec<i64>>'))
+        matrices = VecV([matrix])
+        vctx = env.struct('validation::ValidationContext', problem=RefV(Cell(problem), 0), matrices=mk_option(True, RefV(Cell(matrices), 0), ty='Option<&Vec<Matrix>>'),
+                          coord_index=RefV(Cell(index), 0), job_index=Opaque('job_index'))
+        holder.update(a=a, b=b)
+        return eng.exec_fn(st, rule, [RefV(Cell(vctx), 0)])
+
+    paths = eng.explore(body)
+    res.paths = len(paths)
+    res.functions |= eng.functions_used
+    saw_ok = saw_err = False
+    for st, out in paths:
+        if out is None:
+            if not no_panic(ctx, res, env, st, what=name):
+                break
+            continue
+        a, b = holder['a'], holder['b']
+        mx = z3.If(a.t > b.t, a.t, b.t)
+        count = z3.If(a.t == b.t, 1, 2)
+        is_ok = zs(out.discr == 0)
+        # the documentation names the rule 'amount of locations does not match matrix dimension' and words the check as 'max location index + 1
+        # should be equal to matrix size': demanded here is what both readings agree on, plus that nothing outside the matrix passes
+        # the documented check: 'max location index + 1 should be equal to matrix size' (for coordinate locations the index is the
+        # position in the list of unique locations, so this is also 'amount of locations == matrix dimension')
+        claim = z3.And(is_ok == (mx + 1 == size), z3.Implies(is_ok, mx < size))
+        if not decide_claim(ctx, res, env, st, claim, what=f'{name}: E1504 passes <=> max location index + 1 == matrix size (nothing outside the matrix passes)'):
+            if res.status == 'violated' and res.model is not None:
+                m = res.model
+                ev = lambda t: m.eval(t, model_completion=True).as_long()
+                n = size * size
+                job = {'id': 'job1', 'services': [{'places': [{'location': {'index': ev(b.t)}, 'duration': 0.0}]}]}
+                problem = rules_problem(job, 1)
+                shift = problem['fleet']['vehicles'][0]['shifts'][0]
+                shift['start']['location'] = {'index': ev(a.t)}
+                shift.pop('end', None)
+                res.case = {'kind': 'location_index', 'problem': problem, 'matrix': {'profile': 'car', 'travelTimes': [1] * n, 'distances': [1] * n}, 'size': size,
+                            'indices': [ev(a.t), ev(b.t)]}
+            break
+        if not no_panic(ctx, res, env, st, what=name):
+            break
+        saw_ok = saw_ok or witness(ctx, res, env, st, is_ok)
+        saw_err = saw_err or witness(ctx, res, env, st, z3.Not(is_ok))
+    if res.status == 'holds':
+        res.witnesses = int(saw_ok) + int(saw_err)
+        if not (saw_ok and saw_err):
+            res.status, res.detail = 'inconclusive', f'vacuous: ok={saw_ok} err={saw_err}'
+    res.time = time.time() - t0
+    return res
